@@ -37,6 +37,16 @@ def spaces():
   out['indexed'] = (indexed, {'v[0]': ('float', [0.1], None), 'v[1]': ('float', [0.2, 0.9], None), 'v[2]': ('float', [0.3], None),
                               'w[0]': ('int', [1, 2], None), 'w[3]': ('int', [2], None), 'plain': ('str', ['p'], None)})
 
+  # ---- a long indexed parameter (two-digit indices: 'w[10]' sorts before 'w[2]' as a string), created shuffled
+  def long_indexed(root):
+    for i in (11, 3, 0, 10, 7, 1, 2, 9, 4, 8, 5, 6):
+      root.add_discrete_param('w', [i, i + 100], index=i)
+    for i in (10, 0, 2):
+      root.add_bool_param('flag', index=i)
+  d = {'w[%d]' % i: ('int', [i, i + 100] if i in (0, 10, 11) else [i], None) for i in range(12)}
+  d.update({'flag[%d]' % i: ('bool', ['True', 'False'] if i == 10 else ['False'], None) for i in (0, 2, 10)})
+  out['long-indexed'] = (long_indexed, d)
+
   # ---- conditional: parent kind x single/multiple parent values, depth 2
   def cond(parent_kind, multi):
     def build(root):
